@@ -121,6 +121,17 @@ func (c04) Gen(r *rand.Rand, tier string, run int) *core.Case {
 	if c.Net.ReadMode != "tiny" && r.IntN(3) == 0 {
 		c.Params["big"] = 1
 	}
+	if c.Batch == "fault-free" && r.IntN(4) == 0 {
+		c.Batch = "twin-service"
+		c.Params["twin"] = 1
+		for k := 0; k < 2+r.IntN(3); k++ {
+			conn := r.IntN(nConn)
+			for i := 0; i < 1+r.IntN(3); i++ {
+				// half of these go to the twin (index nObj), half to the object with the same id of the first service
+				c.Ops = append(c.Ops, core.Op{Kind: []string{"echo", "echo", "noarg", "slow", "cancel-echo", "fire"}[r.IntN(6)], Actor: 40 + k, X: int64(conn), Y: int64([]int{0, nObj}[r.IntN(2)]), S: strconv.FormatUint(r.Uint64()>>20, 16)})
+			}
+		}
+	}
 	if c.Batch == "fault-free" && r.IntN(5) == 0 {
 		// the service also uses an object of its own through the in-process
 		// proxy its creation returned (generated Create<Itf>, bus.DirectClient):
@@ -205,6 +216,19 @@ func (c04) Run(c *core.Case, env *core.Env) {
 	for _, impl := range w.Impls {
 		impl.SlowMs = c.P("slow_ms", 0)
 	}
+	var twin bus.Service
+	if c.P("twin", 0) == 1 {
+		// a second service on the same server whose main object has the same
+		// object id and the same actions: what tells the calls apart is the
+		// service id alone
+		zzsim.SetNode("server")
+		twin, err = w.Srv.NewService("Twin", probe.ProbeObject(&ProbeImpl{Env: env, Obj: len(w.ObjIDs), SlowMs: c.P("slow_ms", 0)}))
+		zzsim.SetNode("harness")
+		if err != nil {
+			env.Violate("setup/twin", "%v", err)
+			return
+		}
+	}
 	nConn := c.P("conns", 1)
 	proxies := make([][]probe.ProbeProxy, nConn)
 	for i := 0; i < nConn; i++ {
@@ -215,6 +239,14 @@ func (c04) Run(c *core.Case, env *core.Env) {
 		}
 		for o := range w.ObjIDs {
 			p, err := ProbeProxy(cl, w.ServiceID, w.ObjIDs[o])
+			if err != nil {
+				env.Violate("setup/proxy", "%v", err)
+				return
+			}
+			proxies[i] = append(proxies[i], p)
+		}
+		if twin != nil {
+			p, err := ProbeProxy(cl, twin.ServiceID(), 1)
 			if err != nil {
 				env.Violate("setup/proxy", "%v", err)
 				return
